@@ -662,6 +662,7 @@ func (m *GRPCBroker) timeoutWait(id uint32, p *gRPCBrokerPending) {
 	case <-p.doneCh:
 	case <-time.After(5 * time.Second):
 	}
+	verifhook.Point("grpc.timeout.wake", id)
 
 	m.Lock()
 	defer m.Unlock()
